@@ -73,6 +73,22 @@ impl ReqSpec {
         }
         s
     }
+    /// the JSON document of the request (what a verifier application writes down)
+    pub fn doc(&self) -> Value {
+        let mut a = serde_json::Map::new();
+        for (k, v) in &self.attrs {
+            a.insert(k.clone(), v.clone());
+        }
+        let mut p = serde_json::Map::new();
+        for (k, v) in &self.preds {
+            p.insert(k.clone(), v.clone());
+        }
+        let mut doc = json!({"nonce": self.nonce, "name": "req", "version": "0.1", "ver": "2.0", "requested_attributes": a, "requested_predicates": p});
+        if let Some(iv) = &self.nr {
+            doc["non_revoked"] = vw::interval_json(iv);
+        }
+        doc
+    }
     pub fn build(&self) -> Option<PresentationRequest> {
         let mut a = serde_json::Map::new();
         for (k, v) in &self.attrs {
@@ -402,8 +418,21 @@ pub fn run_job(w: &World, j: &VJob) -> Option<(String, Value)> {
                     (serde_json::to_value(&p).unwrap(), provs, agg)
                 }
             };
+            let (orig_proofs, orig_agg) = (doc["proof"]["proofs"].clone(), doc["proof"]["aggregated_proof"].clone());
+            let was_altered: Vec<bool> = provs.iter().map(|p| p.altered).collect();
+            let agg_was_altered = agg.altered;
             for m in &j.muts {
                 apply_legacy(&mut doc, &mut provs, &mut agg, m);
+            }
+            // "altered" is a fact about the final document, not about the mutations that ran: a later rewrite may
+            // restore what an earlier one changed (the sub-proof is compared with the one finalised at its position)
+            if j.craft.is_none() {
+                for (k, pr) in provs.iter_mut().enumerate() {
+                    if let (Some(f), Some(o)) = (doc["proof"]["proofs"].get(k), orig_proofs.get(pr.pos)) {
+                        pr.altered = was_altered.get(pr.pos).copied().unwrap_or(false) || f != o;
+                    }
+                }
+                agg.altered = agg_was_altered || doc["proof"]["aggregated_proof"] != orig_agg;
             }
             let p2: Presentation = serde_json::from_value(doc.clone()).ok()?;
             // abstract what the library actually parsed
@@ -419,7 +448,7 @@ pub fn run_job(w: &World, j: &VJob) -> Option<(String, Value)> {
             }
             let body = format!(
                 "V L {} {} {} {} {}",
-                vw::request_sexp(&vreq),
+                vw::request_sexp_doc(&j.verify.doc(), &vreq),
                 vw::legacy_sexp(w, &doc2, &provs, &agg),
                 j.ctx.sexp(w),
                 out,
@@ -469,7 +498,7 @@ pub fn run_job(w: &World, j: &VJob) -> Option<(String, Value)> {
             let base = base_req.map(|r| vw::verify_w3c(&p2, &r, &bctx) == "accept");
             let body = format!(
                 "V W {} {} {} {} {}",
-                vw::request_sexp(&vreq),
+                vw::request_sexp_doc(&j.verify.doc(), &vreq),
                 vw::w3c_sexp(w, &p2, &provs, &agg),
                 j.ctx.sexp(w),
                 out,
@@ -556,6 +585,20 @@ fn shapes() -> Vec<(&'static str, ReqSpec, Vec<Pick>, Vec<(String, String)>)> {
             "revocable-plus-plain",
             ReqSpec::new(NONCE).attr("a_name", "name").attr("a_zip", "Zip Code").local("a_name", (None, Some(150))),
             vec![pick(1, &[("a_name", true)], &[], Some(0)), pick(2, &[("a_zip", false)], &[], None)],
+            vec![],
+        ),
+        // the second credential reveals nothing: it serves an unrevealed referent and a predicate only
+        (
+            "second-cred-reveals-nothing",
+            ReqSpec::new(NONCE).attr("a_name", "name").attr("a_zip", "Zip Code").pred("p_sal", "salary", ">", 1000),
+            vec![pick(0, &[("a_name", true)], &[], None), pick(2, &[("a_zip", false)], &["p_sal"], None)],
+            vec![],
+        ),
+        // a credential that serves a predicate only, alone
+        (
+            "predicate-only",
+            ReqSpec::new(NONCE).pred("p_age", "age", ">=", 18),
+            vec![pick(0, &[], &["p_age"], None)],
             vec![],
         ),
     ]
@@ -700,6 +743,15 @@ fn common_families(r: &mut Rng, w: &World, thorough: bool) -> Vec<VJob> {
 
 fn c01_jobs(r: &mut Rng, w: &World, thorough: bool) -> Vec<VJob> {
     let mut jobs = common_families(r, w, thorough);
+    // thresholds the request document states outside the i32 range: the library refuses such a request when it reads
+    // it (then there is no case); if it ever reads one, the presentation is judged against what the document says
+    for fmt in [Fmt::Legacy, Fmt::W3C] {
+        for (op, proven, stated) in [(">=", 18i64, 4294967314i64), (">=", 18, 2147483648), ("<=", 65, -4294967231), (">", 17, 4294967313), ("<", 66, -2147483649 + 66)] {
+            let build = ReqSpec::new(NONCE).attr("a_name", "name").pred("p", "age", op, proven);
+            let verify = ReqSpec::new(NONCE).attr("a_name", "name").pred("p", "age", op, stated);
+            jobs.push(job("cross-request:threshold-outside-i32", fmt, &build, &verify, vec![pick(0, &[("a_name", true)], &["p"], None)], w));
+        }
+    }
     for pad in ["Name", "n a m e", "height", "HEIGHT"] {
         let build = ReqSpec::new(NONCE).group("g", &["name"]);
         let verify = ReqSpec::new(NONCE).group("g", &["name", "height"]);
@@ -1197,7 +1249,9 @@ fn c06_jobs(r: &mut Rng, w: &World, thorough: bool) -> Vec<VJob> {
         }
         // restricted referent met by self-attestation (legacy only has the map)
         if fmt == Fmt::Legacy {
-            for q in [json!({"schema_name": "gvt"}), json!({}), json!({"$or": []}), json!({"$not": {"schema_name": "x"}})] {
+            for q in [json!({"schema_name": "gvt"}), json!({}), json!({"$or": []}), json!({"$and": []}), json!({"$not": {"schema_name": "x"}}),
+                      // restrictions without a leaf that are not the two empty forms
+                      json!({"$or": [{}]}), json!({"$and": [{}]}), json!({"$and": [{"$or": []}]}), json!({"$not": {}}), json!({"$or": [{"$and": []}, {}]}), json!([{}]), json!({"$not": {"$not": {}}})] {
                 let build = ReqSpec::new(NONCE).attr("a_name", "name").attr("sa", "phone");
                 let verify = build.clone().restr("sa", q);
                 let mut j = job("restriction:self-attested", fmt, &build, &verify, vec![pick(0, &[("a_name", true)], &[], None)], w);
